@@ -22,6 +22,7 @@ import (
 	"net/http"
 	"net/http/httptest"
 	"net/url"
+	"os"
 	"runtime"
 	"sort"
 	"strconv"
@@ -1701,9 +1702,11 @@ func main() {
 		return
 	}
 	s.stream = "corpus"
-	for _, ops := range hx.CorpusOps("C20") {
-		for _, op := range ops {
-			s.add(op)
+	if os.Getenv("VERIF_NO_CORPUS") == "" { // self-validation of the generators runs without the corpus
+		for _, ops := range hx.CorpusOps("C20") {
+			for _, op := range ops {
+				s.add(op)
+			}
 		}
 	}
 	s.flush()
